@@ -287,6 +287,15 @@ int tokens_get(AsmContext *asm_context, char *token, int len)
 //printf("debug> getc()='%c'  ptr=%d  token='%s'\n", ch, ptr, token);
 #endif
 
+    // Leave room for the characters appended below and the terminator.
+    if (ptr >= len - 2)
+    {
+      print_error(asm_context, "Token is too long");
+      asm_context->error_count++;
+      token[ptr] = 0;
+      return TOKEN_EOF;
+    }
+
     if (token_type == TOKEN_DOLLAR)
     {
       if ((ch >= '0' && ch <= '9') ||
